@@ -702,6 +702,18 @@ def forwarded(res, name, fn, heads):
                     return False
             elif e[0] == "monitors":
                 r = _roles_in(e[3])
+
+                def _has_own(v):
+                    if isinstance(v, Opq):
+                        return v.name == "self.monitors"
+                    if isinstance(v, dict):
+                        return any(_has_own(x) for x in v.values())
+                    if isinstance(v, (list, tuple)):
+                        return any(_has_own(x) for x in v)
+                    return False
+                if "monitors" in r and not (r - {"monitors"}) and not _has_own(e[3]):
+                    res.bad("DRV-FORWARD", "%s: the dictionary given to _parse_monitors holds the caller's `monitors` but NOT the monitors the solver was constructed with (self.monitors): `monitors or self.monitors` is one OR the other -- the constructor-level monitors record nothing in a run that is given call-level ones (the documented behaviour is the merge of both)" % name, e[1], name + "-own-monitors")
+                    return False
                 if "monitors" not in r or r - {"monitors"}:
                     res.bad("DRV-FORWARD", "%s: the dictionary given to _parse_monitors is built from %s, not from the caller's `monitors` argument (the caller's monitors never run; its run options are taken for monitors)" % (name, ["`%s`" % x for x in sorted(r)] or "no caller argument"), e[1], name + "-monitors")
                     return False
